@@ -1,4 +1,4 @@
-import AsyncFix.Model.LinkInv
+import AsyncFix.Lemmas.LinkConst
 import AsyncFix.Lemmas.SessionRel
 
 /-!
